@@ -1,4 +1,5 @@
 import HmcVerif.Exec.C01
+import HmcVerif.Exec.C02
 open HmcVerif
 
 def dispatch (cmd : String) : Option (P String) :=
@@ -6,6 +7,10 @@ def dispatch (cmd : String) : Option (P String) :=
   | "c01.sched" => some C01.sched
   | "c01.state" => some C01.state
   | "c01.reflect" => some C01.reflect
+  | "c02.rwmh" => some C02.rwmh
+  | "c02.hmc" => some C02.hmc
+  | "c02.accept" => some C02.acc
+  | "c02.autotune" => some C02.autotune
   | _ => none
 
 def answer (line : String) : String :=
